@@ -25,6 +25,14 @@ Theorem C20_check_sound : forall params p s1 s2,
   forall l, l < next s1 -> heap s2 l = heap s1 l.
 Proof. exact check_sound. Qed.
 
+(* and with taint sets supplied from outside (what the per-run tie file evaluates for every odak function) *)
+Theorem C20_fn_ok_sound : forall f s1 s2,
+  fn_ok f = true -> wf s1 ->
+  (forall x l, env s1 x = Some l -> In x (f_params f)) ->
+  exec (f_body f) s1 s2 ->
+  forall l, l < next s1 -> heap s2 l = heap s1 l.
+Proof. exact fn_ok_sound. Qed.
+
 (* deep snapshots (content and, recursively, everything referred to) of all pre-existing objects agree *)
 Theorem C20_deep_unchanged : forall town tr p s1 s2,
   incl town tr -> ok town tr p = true -> wf s1 ->
